@@ -282,7 +282,7 @@ families page).
 """
 blocks['C19']="""**As built / outcome.** Claimed at level `fault_enumeration`: for every
 document the failing writer is injected at **every** file index k (capped at
-the first 40 files) with jobs = 1, and for jobs 2 and 8 at the first two, the
+the first 40 files of a site in quick, 150 in thorough) with jobs = 1, and for jobs 2 and 8 at the first two, the
 last and a rotating sample of the indices (every 8th in quick, every 3rd in
 thorough) — about 1,900 injections in a quick run. The determinism differential compares 3
 repetitions, jobs {1,2,8,16}, perturbed schedules (`pub.*` hooks) and
